@@ -118,15 +118,15 @@ func (setup *SetupServerController) handlePairStart(in util.Container) (util.Con
 // or
 // - auth error
 func (setup *SetupServerController) handlePairVerify(in util.Container) (util.Container, error) {
-	setup.step = PairStepVerifyResponse
 	out := util.NewTLV8Container()
-	out.SetByte(TagSequence, setup.step.Byte())
+	out.SetByte(TagSequence, PairStepVerifyResponse.Byte())
 
 	clientPublicKey := in.GetBytes(TagPublicKey)
 	log.Debug.Println("->     A:", hex.EncodeToString(clientPublicKey))
 
 	err := setup.session.SetupPrivateKeyFromClientPublicKey(clientPublicKey)
 	if err != nil {
+		setup.reset()
 		return nil, err
 	}
 
@@ -142,8 +142,12 @@ func (setup *SetupServerController) handlePairVerify(in util.Container) (util.Co
 		log.Debug.Println("Proof M1 is valid")
 		err := setup.session.SetupEncryptionKey([]byte("Pair-Setup-Encrypt-Salt"), []byte("Pair-Setup-Encrypt-Info"))
 		if err != nil {
+			setup.reset()
 			return nil, err
 		}
+
+		// The key exchange is only accepted after the proof was verified
+		setup.step = PairStepVerifyResponse
 
 		// Return proof `M2`
 		out.SetBytes(TagProof, proof)
